@@ -421,6 +421,8 @@ def _check(prop, tier, seed, t0):
     evaluations = 0
     samples = []
 
+    unknown_count = [0]
+
     def consume(cases, label):
         nonlocal evaluations
         cases = list(cases)
@@ -434,11 +436,14 @@ def _check(prop, tier, seed, t0):
                 if len(samples) < 5 and prop.nontrivial(c, r):
                     samples.append({"case": c, "real": r})
                 if orc is not None:
-                    failures.append({"case": c, "observed": orc.get("observed"), "required": orc.get("required"),
-                                     "kind": orc.get("kind", "oracle"), "real": r, "model": mo})
+                    f = {"case": c, "observed": orc.get("observed"), "required": orc.get("required"),
+                         "kind": orc.get("kind", "oracle"), "real": r, "model": mo}
+                    if known_match(pid, f, known) is None:
+                        unknown_count[0] += 1
+                    failures.append(f)
                 if corr is not None:
                     disagreements.append({"case": c, "real": corr["real"], "model": corr["model"]})
-            if len(failures) > 50 or len(disagreements) > 50:
+            if unknown_count[0] > 50 or len(disagreements) > 50:      # listed known findings never cut the exploration short
                 break
 
     consume(prop.corpus(), "corpus")
